@@ -259,34 +259,43 @@ def c05_3(ctx):
             out.append(ctx.bad(spec, "%s: script code item is `%s`, expected `%s`" % (label, tk[5] if len(tk) > 5 else None, want), fn, mod, key="scriptcode:" + label))
     # midstates hash what BIP143 says
     want = {
-        "tx:Tx.hash_prevouts": {"self._hash_prevouts": "hash256[repeat<self.tx_ins>[bytes:tx_in.prev_tx[::-1] int4LE:tx_in.prev_index]]",
-                                "self._hash_sequence": "hash256[repeat<self.tx_ins>[ser:tx_in.sequence]]"},
-        "tx:Tx.hash_outputs": {"self._hash_outputs": "hash256[repeat<self.tx_outs>[ser:tx_out]]"},
+        "hash_prevouts": "hash256[repeat<self.tx_ins>[bytes:tx_in.prev_tx[::-1] int4LE:tx_in.prev_index]]",
+        "hash_sequence": "hash256[repeat<self.tx_ins>[ser:tx_in.sequence]]",
+        "hash_outputs": "hash256[repeat<self.tx_outs>[ser:tx_out]]",
     }
     out += _midstates(ctx, want, "bip143-mid")
     return out
 
 
 def _midstates(ctx, want, keyp):
+    """want: {digest method name: expected preimage}.  The digest may be returned by the method of that name or stored in a
+    memo attribute `self._<name>` by any Tx method (the memoised form)."""
     out = []
-    for spec, stores in want.items():
-        if not ctx.repo.has_func(spec):
-            # memo helper removed: the digest must then be computed inline; nothing to compare here
-            out.append(ctx.ok(spec, "no memoised midstate helper (removed)", key=keyp + ":" + spec))
+    mod, _ = ctx.repo.cls("tx:Tx")
+    stores = {}
+    for qn, fn in mod.functions.items():
+        if qn.startswith("Tx.") and (qn[3:].startswith("hash_") or qn[3:].startswith("sha_")):
+            w = WriterExec(ctx.repo, mod, fn)
+            try:
+                ret = w.run()
+            except AnalysisError:
+                ret = None
+            for k, v in w.stores.items():
+                stores[k] = (" ".join(toks(v)), fn)
+            if ret:
+                stores["<return>:" + qn[3:]] = (" ".join(toks(ret)), fn)
+    for name, exp in want.items():
+        cands = [stores.get("<return>:" + name), stores.get("self._" + name)]
+        cands = [c for c in cands if c and not c[0].startswith("bytes:self._")]
+        if not ctx.repo.has_func("tx:Tx." + name):
+            out.append(ctx.err("tx:Tx." + name, "midstate helper vanished"))
             continue
-        mod, fn = rl.get(ctx, spec)
-        w = WriterExec(ctx.repo, mod, fn)
-        ret = w.run()
-        found = {k: " ".join(toks(v)) for k, v in w.stores.items()}
-        # helpers without a memo simply return the digest
-        if not found and ret:
-            found = {"<return>": " ".join(toks(ret))}
-        for attr, exp in stores.items():
-            vals = [v for k, v in found.items() if k == attr or k == "<return>" or k.endswith(attr.split("._")[-1])]
-            if exp in vals or exp in found.values():
-                out.append(ctx.ok(spec, "%s = %s" % (attr, exp), fn, mod, key=keyp + ":" + attr))
-            else:
-                out.append(ctx.bad(spec, "%s is computed as %s, specification: %s" % (attr, found.get(attr, found), exp), fn, mod, key=keyp + ":" + attr))
+        fn = mod.functions["Tx." + name]
+        ctx.note_fn(mod, fn)
+        if any(c[0] == exp for c in cands):
+            out.append(ctx.ok("tx:Tx." + name, "%s = %s" % (name, exp), fn, mod, key=keyp + ":" + name))
+        else:
+            out.append(ctx.bad("tx:Tx." + name, "%s is computed as %s, specification: %s" % (name, [c[0] for c in cands] or "nothing recognisable", exp), fn, mod, key=keyp + ":" + name))
     return out
 
 
@@ -350,11 +359,11 @@ def c05_4(ctx):
                         NAMES[ht], "present" if annex else "absent", ext, i + 1, got[i] if i < len(got) else "<end>", exp[i] if i < len(exp) else "<end>"),
                         fn, mod, key=key, detail={"found": got, "expected": exp}))
     want = {
-        "tx:Tx.sha_prevouts": {"self._sha_prevouts": "sha256[repeat<self.tx_ins>[bytes:tx_in.prev_tx[::-1] int4LE:tx_in.prev_index]]",
-                               "self._sha_amounts": "sha256[repeat<self.tx_ins>[int8LE:tx_in.value()]]",
-                               "self._sha_script_pubkeys": "sha256[repeat<self.tx_ins>[ser:tx_in.script_pubkey()]]",
-                               "self._sha_sequences": "sha256[repeat<self.tx_ins>[ser:tx_in.sequence]]"},
-        "tx:Tx.sha_outputs": {"self._sha_outputs": "sha256[repeat<self.tx_outs>[ser:tx_out]]"},
+        "sha_prevouts": "sha256[repeat<self.tx_ins>[bytes:tx_in.prev_tx[::-1] int4LE:tx_in.prev_index]]",
+        "sha_amounts": "sha256[repeat<self.tx_ins>[int8LE:tx_in.value()]]",
+        "sha_script_pubkeys": "sha256[repeat<self.tx_ins>[ser:tx_in.script_pubkey()]]",
+        "sha_sequences": "sha256[repeat<self.tx_ins>[ser:tx_in.sequence]]",
+        "sha_outputs": "sha256[repeat<self.tx_outs>[ser:tx_out]]",
     }
     out += _midstates(ctx, want, "bip341-mid")
     return out
